@@ -380,3 +380,53 @@ def fresh_library_state():
     else:
         _PRISTINE.restore()
     return _PRISTINE
+
+
+# --------------------------------------------------------------------------------------------
+# E2 in the small: two-step histories over a representative case alphabet
+
+def pair_histories(acc, prop, label, cases, run, describe=repr):
+    """Every ordered pair (a, b) of `cases` is executed as the history [a; b] from the pristine library
+    state: the observation of b must be identical to the observation of b executed alone from the pristine
+    state.  run(case, shared) -> hashable observation; `shared` is a dict that lives for one history, so
+    that run() can keep and REUSE library objects (the same Richardson / Jacobian / generator instance) across
+    the two steps.  Reports a violation '<prop>:history:<label>' with the shortest failing pair."""
+    alone = {}
+    for i, b in enumerate(cases):
+        fresh_library_state()
+        alone[i] = run(b, {})
+    for i, a in enumerate(cases):
+        for j, b in enumerate(cases):
+            fresh_library_state()
+            shared = {}
+            run(a, shared)
+            got = run(b, shared)
+            same = got == alone[j]
+            acc.case(('history', label, i, j), nontrivial=True, cell='history/' + label, outcome=same)
+            acc.count('history_pairs')
+            if not same:
+                acc.violation('%s:history:%s' % (prop, label), dict(kind='history', label=label, first=describe(a),
+                                                                    second=describe(b), i=i, j=j),
+                              'after %s, %s returned %s; executed alone from a fresh state it returns %s'
+                              % (describe(a), describe(b), _short_obs(got), _short_obs(alone[j])), rank=i + j)
+    fresh_library_state()
+
+
+def _short_obs(o):
+    s = repr(o)
+    return s if len(s) < 300 else s[:300] + '...'
+
+
+def obs(x):
+    """canonical hashable observation of a library result (arrays -> bytes, tuples recursively, exceptions -> name)"""
+    import numpy as np
+    if isinstance(x, BaseException):
+        return ('exc', type(x).__name__)
+    if isinstance(x, tuple) or isinstance(x, list):
+        return tuple(obs(v) for v in x)
+    if hasattr(x, '_fields'):
+        return tuple(obs(v) for v in x)
+    a = np.asarray(x)
+    if a.dtype == object:
+        return ('obj', repr(x))
+    return (str(a.dtype), a.shape, a.tobytes())
